@@ -6,8 +6,9 @@
      1. [run_collect]: before the first Close the machine appends one entry (payload, tree) to
         [written] per frame it puts on the stream, and the monitor's [collect] gathers exactly one
         (expectation, frame length) pair per entry: [ent]; the expectation of an entry is what the
-        reader makes of it ([expo]): for Send by the round-trip theorems of WireProofs, for
-        SendRaw by unfolding.
+        reader makes of it ([expo], a function of the payload bytes alone): for Send by the
+        round-trip theorems of WireProofs (bincode) and JsonTextProofs (Json text), for SendRaw
+        by unfolding.
      2. [close_obs_gen]: what the reader yields at Close ([close_obs]) is the whole frames followed
         by [close_tail]: no cut -> framing_any_chunking_holds; a cut inside the last frame ->
         framing_truncated_holds.  [close_obs_eq]: for cut <> 4 (not exactly after the length
@@ -18,7 +19,7 @@
 From Coq Require Import String Ascii.
 From Coq Require Import List NArith ZArith Bool Arith Lia.
 Import ListNotations.
-From TarpcV Require Import Base Schema Wire WireProofs Framing FramingProofs Shipped.
+From TarpcV Require Import Base Schema Wire WireProofs JsonText JsonTextProofs Framing FramingProofs Shipped.
 
 (* ------------------------------------------------------------------------------------------ *)
 (* what a script may contain *)
@@ -403,10 +404,10 @@ Proof.
   - destruct (bincode_roundtrip_resp r Hwf) as (bs & Eb & Db).
     rewrite Eb in Hp. injection Hp as <-. rewrite Db. reflexivity.
   - destruct Hwf as [Hwf _].
-    destruct (json_tree_roundtrip_cm x Hwf) as (j & Ej & Dj).
-    rewrite Ej, bytes_eqb_refl, Dj. reflexivity.
-  - destruct (json_tree_roundtrip_resp r Hwf) as (j & Ej & Dj).
-    rewrite Ej, bytes_eqb_refl, Dj. reflexivity.
+    destruct (json_text_roundtrip_cm x Hwf) as (t & Et & Dt).
+    unfold cm_json_text in Et. rewrite Et in Hp. injection Hp as <-. rewrite Dt. reflexivity.
+  - destruct (json_text_roundtrip_resp r Hwf) as (t & Et & Dt).
+    unfold resp_json_text in Et. rewrite Et in Hp. injection Hp as <-. rewrite Dt. reflexivity.
 Qed.
 
 (* a well-formed message always has an encoding (so ONoEncoding is never observed) *)
@@ -427,10 +428,7 @@ Lemma raw_expo C c2s p t : is_framed C = true ->
   expect_of C c2s (SendRaw p t) = Some (expo C c2s (p, t)).
 Proof.
   intros Hf. unfold expo. cbn [fst expect_of].
-  destruct C as [| |cap|]; try discriminate.
-  - reflexivity.
-  - unfold decode_payload. destruct t as [t|]; [|reflexivity].
-    rewrite bytes_eqb_refl. reflexivity.
+  destruct C as [| |cap|]; try discriminate; reflexivity.
 Qed.
 
 (* ------------------------------------------------------------------------------------------ *)
@@ -763,10 +761,9 @@ Proof.
   - destruct c2s.
     + destruct (cm_of_bincode p); [right; eexists; reflexivity|left; reflexivity].
     + destruct (resp_of_bincode p); [right; eexists; reflexivity|left; reflexivity].
-  - destruct t as [t|]; [|left; reflexivity].
-    destruct (bytes_eqb p p); [|left; reflexivity]. destruct c2s.
-    + destruct (cm_of_json t); [right; eexists; reflexivity|left; reflexivity].
-    + destruct (resp_of_json t); [right; eexists; reflexivity|left; reflexivity].
+  - destruct c2s.
+    + destruct (cm_of_json_text p); [right; eexists; reflexivity|left; reflexivity].
+    + destruct (resp_of_json_text p); [right; eexists; reflexivity|left; reflexivity].
 Qed.
 
 Lemma expo_items C c2s W o : In o (map (expo C c2s) W) -> o = ORecvErr \/ exists m, o = ORecv m.
